@@ -541,6 +541,8 @@ func rulesC17(e *Engine, r *Report) {
 		})
 		r.Check(ok, "R17.13", "store.(*Local).ShouldIgnore = shouldIgnore(name, isDir=false)", e.Pos(fn.Pos()), "the recovery-time filter judges a file by the directory rules (include patterns are skipped): files the configuration now excludes are re-sent after a restart", 1)
 	}
+	// ---------------------------------------------------------------- R17.14
+	e.shareRule(r, "C02", "R02.12", "R17.14", "a changed file is sent again: a verdict about the version sent earlier does not mark the re-scanned newer version done (it would never be queued) nor delete it")
 }
 
 // checkNoSharedAppend: a sender-private list that is appended to must not be
